@@ -18,9 +18,10 @@
 (***************************************************************************)
 EXTENDS Integers, Sequences, FiniteSets, TLC, Json
 
-CONSTANTS MaxStages,      \* number of stages explored: 1..MaxStages
+CONSTANTS MinStages, MaxStages,   \* number of stages explored: MinStages..MaxStages
           GridPos,        \* set of naturals: the numeric weights a package may give (ten-thousandths)
           GridNeg,        \* set of naturals whose negations are also given (a cfg file cannot hold -1)
+          UseSpecial,     \* TRUE: a weight may also be missing or malformed
           Emit            \* TRUE: print every (given, weights) case as JSON for the conformance driver
 
 Grid == GridPos \cup {-x : x \in GridNeg}
@@ -35,8 +36,10 @@ VARIABLES n,        \* number of stages
           w,        \* [1..n -> Int]  normalised weights (only meaningful when loaded)
           loaded,
           st,       \* [1..n -> {"pending","active","transit","finished"}]
-          prog      \* [1..n -> 0..4] completed quarter of the stage's components
-vars == <<n, given, w, loaded, st, prog>>
+          prog,     \* [1..n -> 0..4] completed quarter of the stage's components
+          mon,      \* the status monitor's CheckStatus in progress: [pc, cur, T, F, s0, a]
+          reported  \* the total progress CheckStatus last wrote to the status file, in 1/(4*Unit); -1 before the first
+vars == <<n, given, w, loaded, st, prog, mon, reported>>
 
 RECURSIVE SumTo(_, _)
 SumTo(f, k) == IF k = 0 THEN 0 ELSE f[k] + SumTo(f, k - 1)
@@ -63,41 +66,81 @@ Normalise(g, k) == IF Usable(g, k) THEN [i \in 1..k |-> Num(g[i])] ELSE Fallback
 (* deviation so that TLC can show on which inputs it differs from Normalise (see DeviationIsHarmless).   *)
 TruncAccepts(g, k) == Sum([i \in 1..k |-> Trunc(Num(g[i]))], k) = 1000
 
-Init == /\ n \in 1..MaxStages
-        /\ given \in [1..n -> Grid \cup Special]
+(* CheckStatus of the status monitor runs concurrently with the controller.  It reads the current stage (MonBegin),  *)
+(* then - under the controller's lock, i.e. atomically - the stages in transit and the finished stages (MonSnap),     *)
+(* then the progress of the current stage and of every stage in transit, and writes the weighted sum (MonSum).        *)
+(* s0 / a are history: the state when CheckStatus began and the one controller action that happened meanwhile.         *)
+MonIdle == [pc |-> "idle", cur |-> 0, T |-> {}, F |-> {}, s0 |-> <<>>, a |-> <<"none", 0>>]
+
+Init == /\ n \in MinStages..MaxStages
+        /\ given \in [1..n -> IF UseSpecial THEN Grid \cup Special ELSE Grid]
         /\ w = [i \in 1..n |-> 0]
         /\ loaded = FALSE
         /\ st = [i \in 1..n |-> "pending"]
         /\ prog = [i \in 1..n |-> 0]
+        /\ mon = MonIdle
+        /\ reported = -1
+
+Note(act) == IF mon.pc = "idle" THEN mon ELSE [mon EXCEPT !.a = act]
+(* while a CheckStatus is in progress at most one controller action is explored (bound of the model, see MonBusyOnce) *)
+MonQuiet == mon.pc = "idle" \/ mon.a = <<"none", 0>>
 
 Load == /\ ~loaded /\ ~Rejected(given, n)
         /\ loaded' = TRUE
         /\ w' = Normalise(given, n)
         /\ st' = [st EXCEPT ![1] = "active"]
-        /\ UNCHANGED <<n, given, prog>>
+        /\ UNCHANGED <<n, given, prog, mon, reported>>
 
 (* a component of an active / in-transit stage finishes *)
-Advance(i) == /\ i <= n /\ loaded /\ st[i] \in {"active", "transit"} /\ prog[i] < 4
+Advance(i) == /\ i <= n /\ loaded /\ MonQuiet /\ st[i] \in {"active", "transit"} /\ prog[i] < 4
               /\ prog' = [prog EXCEPT ![i] = @ + 1]
-              /\ UNCHANGED <<n, given, w, loaded, st>>
+              /\ mon' = Note(<<"Advance", i>>)
+              /\ UNCHANGED <<n, given, w, loaded, st, reported>>
 
 (* the controller moves on to stage i+1; stage i either is finished or stays in transit *)
-NextStage(i, how) == /\ i <= n /\ loaded /\ st[i] = "active" /\ i < n /\ st[i + 1] = "pending"
+NextStage(i, how) == /\ i <= n /\ loaded /\ MonQuiet /\ st[i] = "active" /\ i < n /\ st[i + 1] = "pending"
                      /\ how \in {"finished", "transit"}
                      /\ st' = [st EXCEPT ![i] = how, ![i + 1] = "active"]
-                     /\ UNCHANGED <<n, given, w, loaded, prog>>
+                     /\ mon' = Note(<<"NextStage" \o how, i>>)
+                     /\ UNCHANGED <<n, given, w, loaded, prog, reported>>
 
-Finish(i) == /\ i <= n /\ loaded
+Finish(i) == /\ i <= n /\ loaded /\ MonQuiet
              /\ \/ st[i] = "transit"
                 \/ st[i] = "active" /\ i = n
              /\ st' = [st EXCEPT ![i] = "finished"]
-             /\ UNCHANGED <<n, given, w, loaded, prog>>
+             /\ mon' = Note(<<"Finish", i>>)
+             /\ UNCHANGED <<n, given, w, loaded, prog, reported>>
+
+Current == IF \E i \in 1..n : st[i] = "active" THEN CHOOSE i \in 1..n : st[i] = "active" ELSE n
+Quarter(i) == IF st[i] = "finished" THEN 4 ELSE prog[i]          \* Controller.get_stage_status: finished components / all
+
+MonBegin == /\ loaded /\ mon.pc = "idle"
+            /\ mon' = [pc |-> "begun", cur |-> Current, T |-> {}, F |-> {}, s0 |-> <<st, prog>>, a |-> <<"none", 0>>]
+            /\ UNCHANGED <<n, given, w, loaded, st, prog, reported>>
+MonSnap ==  /\ mon.pc = "begun"
+            /\ mon' = [mon EXCEPT !.pc = "snapped",
+                                   !.T = {i \in 1..n : st[i] \in {"active", "transit"}} \ {mon.cur},
+                                   !.F = {i \in 1..n : st[i] = "finished"} \ {mon.cur}]
+            /\ UNCHANGED <<n, given, w, loaded, st, prog, reported>>
+MonSum ==   /\ mon.pc = "snapped"
+            /\ reported' = Sum([i \in 1..n |-> IF i = mon.cur \/ i \in mon.T THEN Quarter(i) * w[i]
+                                                ELSE IF i \in mon.F THEN 4 * w[i] ELSE 0], n)
+            /\ mon' = [mon EXCEPT !.pc = "idle"]
+            /\ UNCHANGED <<n, given, w, loaded, st, prog>>
 
 Next == \/ Load
+        \/ MonBegin \/ MonSnap \/ MonSum
         \/ \E i \in 1..MaxStages : Advance(i)          \* constant bounds: TLC then reports coverage per action
         \/ \E i \in 1..MaxStages : Finish(i)
         \/ \E i \in 1..MaxStages, h \in {"finished", "transit"} : NextStage(i, h)
 
+(* the controller alone (no CheckStatus in progress): used to enumerate the states the progress formula is checked on *)
+NextNoMon == \/ Load
+             \/ \E i \in 1..MaxStages : Advance(i)
+             \/ \E i \in 1..MaxStages : Finish(i)
+             \/ \E i \in 1..MaxStages, h \in {"finished", "transit"} : NextStage(i, h)
+
+SpecNoMon == Init /\ [][NextNoMon]_vars
 Spec == Init /\ [][Next]_vars
 
 (* total progress as CheckStatus computes it, in 1/(4*Unit) *)
@@ -112,12 +155,14 @@ WeightsNonNegative == loaded => \A i \in 1..n : w[i] >= 0
 WeightsSumToOne    == loaded => Sum(w, n) = Unit
 GivenPreserved     == (loaded /\ Usable(given, n)) => \A i \in 1..n : w[i] = Num(given[i])
 TotalInRange       == loaded => (0 <= Total /\ Total <= 4 * Unit)
+ReportedInRange    == reported = -1 \/ (0 <= reported /\ reported <= 4 * Unit)
 TotalCompleteAtEnd == (loaded /\ \A i \in 1..n : st[i] = "finished") => Total = 4 * Unit
 TypeOK == /\ n \in 1..MaxStages /\ loaded \in BOOLEAN
           /\ \A i \in 1..n : st[i] \in {"pending", "active", "transit", "finished"} /\ prog[i] \in 0..4
 
 (* progress never decreases while stages only advance (action property) *)
 Monotone == [][loaded => Total' >= Total]_vars
+(* every CheckStatus reports a value between the true total when it began and the true total when it ended *)
 
 (* emission of cases for the conformance driver *)
 EmitCase == (Emit /\ ~loaded) =>
@@ -125,7 +170,14 @@ EmitCase == (Emit /\ ~loaded) =>
                              expected |-> Normalise(given, n),
                              truncAccepts |-> TruncAccepts(given, n), rejected |-> Rejected(given, n),
                              usable |-> Usable(given, n)]))
-EmitState == (Emit /\ loaded) =>
+EmitUsable == (Emit /\ ~loaded /\ Usable(given, n)) =>
+              PrintT(ToJson([n |-> n, given |-> [i \in 1..n |-> given[i]], expected |-> Normalise(given, n),
+                             truncAccepts |-> TruncAccepts(given, n), rejected |-> FALSE, usable |-> TRUE]))
+(* one record per completed CheckStatus: where it began, what the controller did meanwhile, what it reported *)
+EmitReport == (Emit /\ loaded /\ mon.pc = "idle" /\ reported # -1 /\ mon.s0 # <<>>) =>
+              PrintT(ToJson([n |-> n, given |-> [i \in 1..n |-> given[i]], w |-> w, st0 |-> mon.s0[1], prog0 |-> mon.s0[2],
+                             act |-> mon.a[1], arg |-> mon.a[2], reported |-> reported]))
+EmitState == (Emit /\ loaded /\ mon.pc = "idle") =>
               PrintT(ToJson([n |-> n, given |-> [i \in 1..n |-> given[i]], w |-> w,
                              st |-> st, prog |-> prog, total |-> Total]))
 =============================================================================
